@@ -10,10 +10,11 @@ for f in sorted(glob.glob('/tmp/seedfinal_*.log'), key=os.path.getmtime):
             last[(m.group(1), m.group(2))] = m.group(3).strip()
             allr.setdefault((m.group(1), m.group(2)), []).append(m.group(3).strip())
 allseeds = set()
-for d in glob.glob('/tmp/seedout-C*/[12]') + glob.glob('/tmp/seedout2-C*/[12]'):
+for d in glob.glob('/tmp/seedout-C*/[12]') + glob.glob('/tmp/seedout2-C*/[12]') + glob.glob('/tmp/seedout3-C*/[12]'):
     pid = re.search(r'(C\d+)', d).group(1)
     k = os.path.basename(d)
     if 'seedout2' in d: k = 'r2-' + k
+    if 'seedout3' in d: k = 'r3-' + k
     allseeds.add((pid, k))
 notes = json.load(open('/verif/tools/seed_notes.json'))
 rows = []
